@@ -232,7 +232,7 @@ const N_CONSTRUCT: usize = 11;
 const POOL: usize = 3;
 // op encoding: 0..N_CONSTRUCT construct; then for slot i in 0..POOL: clone, check, into_owned, drop, thread_drop; then pair ops
 fn n_ops<D: Dom>() -> usize {
-    N_CONSTRUCT + POOL * D::PER_SLOT + 3
+    N_CONSTRUCT + POOL * D::PER_SLOT + 3 + 2
 }
 
 fn run_seq<D: Dom>(seq: &[usize]) -> Result<Option<usize>, (String, String, usize)> {
@@ -397,8 +397,34 @@ fn run_seq<D: Dom>(seq: &[usize]) -> Result<Option<usize>, (String, String, usiz
                 }
             }
         } else {
+            let pi = op - N_CONSTRUCT - POOL * D::PER_SLOT;
+            if pi >= 3 {
+                // Clone::clone_from: slot a takes over the value of slot b (what Vec / Option::clone_from forward to);
+                // whatever a held is released exactly as if a had been dropped
+                let (a, b) = [(0, 1), (1, 0)][pi - 3];
+                if pool[a].is_none() || pool[b].is_none() {
+                    result = Ok(Some(step));
+                    break 'steps;
+                }
+                let (src_model, src_arc) = {
+                    let sb = pool[b].as_ref().unwrap();
+                    (sb.model.clone(), sb.arc)
+                };
+                let src: Cow<'static, D::T> = pool[b].as_ref().unwrap().cow.clone();
+                let sa = pool[a].as_mut().unwrap();
+                if let Some(x) = sa.arc {
+                    arc_refs[x] -= 1;
+                }
+                sa.cow.clone_from(&src);
+                drop(src);
+                sa.model = src_model;
+                sa.arc = src_arc;
+                if let Some(x) = src_arc {
+                    arc_refs[x] += 1;
+                }
+            } else {
             // pair ops over (0,1), (0,2), (1,2): ==, cmp, hash against the model
-            let (a, b) = [(0, 1), (0, 2), (1, 2)][op - N_CONSTRUCT - POOL * D::PER_SLOT];
+            let (a, b) = [(0, 1), (0, 2), (1, 2)][pi];
             let (sa, sb) = match (pool[a].as_ref(), pool[b].as_ref()) {
                 (Some(x), Some(y)) => (x, y),
                 _ => {
@@ -416,6 +442,7 @@ fn run_seq<D: Dom>(seq: &[usize]) -> Result<Option<usize>, (String, String, usiz
             if eq != (sa.model == sb.model) || cmp != sa.model.cmp(&sb.model) || ((sa.model == sb.model) && hash(&sa.cow) != hash(&sb.cow)) {
                 result = fail("comparison-disagrees-with-content", format!("{}: {:?} vs {:?}: eq {} cmp {:?}", D::NAME, sa.model, sb.model, eq, cmp));
                 break 'steps;
+            }
             }
         }
         // invariants after every step
@@ -938,7 +965,7 @@ fn main() {
     driver::main(CheckDef {
         prop: "C14",
         level: "model_checking",
-        rule: "every sequence of the stated depth (first operation = each of the 11 constructions) over: construct {borrowed, From<&T>, Default, a borrowed proper prefix of the static (same address, shorter; for str through std Cow::Borrowed), owned with (len,cap) in (0,0),(0,8),(3,3),(3,16) incl. through the std Cow / Vec conversions, shared Arc alone, shared Arc with an outside strong reference, with an outside strong + weak reference}, and per pool slot (3 slots) clone, read back (deref, as_ref), into_owned, drop, move-to-another-thread-read-and-drop, and for [E] into_owned and clone while the second element clone they make panics (fault injected, caught), plus pairwise ==/cmp/hash; for Cow<str> and for Cow<[E]> with a drop-, clone- and corruption-detecting element type, on the repository's cow.rs compiled into the harness; after every step contents equal the model and Arc strong counts equal the model; at the end every element instance is dropped exactly once and the tracking allocator (no block reuse, poison on free, recorded double/invalid frees) is back to its baseline; plus sequences through the public SharedString/Label/Key API; plus owned vectors of a zero-sized element type (capacity usize::MAX, the value reserved for Arc-backed values) x {drop, clone, into_owned}, each in its own process: rejected by a panic or handled correctly, never a dead process; distinct = distinct (allocations, frees, prune point) profiles; plus compile-time probes against the repository's cow.rs: 13 programs that keep a borrow for longer than the data (through from_borrowed, From<&T>, const_str, const_slice, std Cow, clone, deref, as_ref, lengthening the lifetime) must each be rejected by the compiler with a lifetime error, 10 controls of the same shape must compile",
+        rule: "every sequence of the stated depth (first operation = each of the 11 constructions) over: construct {borrowed, From<&T>, Default, a borrowed proper prefix of the static (same address, shorter; for str through std Cow::Borrowed), owned with (len,cap) in (0,0),(0,8),(3,3),(3,16) incl. through the std Cow / Vec conversions, shared Arc alone, shared Arc with an outside strong reference, with an outside strong + weak reference}, and per pool slot (3 slots) clone, read back (deref, as_ref), into_owned, drop, move-to-another-thread-read-and-drop, and for [E] into_owned and clone while the second element clone they make panics (fault injected, caught), plus pairwise ==/cmp/hash and Clone::clone_from between two slots; for Cow<str> and for Cow<[E]> with a drop-, clone- and corruption-detecting element type, on the repository's cow.rs compiled into the harness; after every step contents equal the model and Arc strong counts equal the model; at the end every element instance is dropped exactly once and the tracking allocator (no block reuse, poison on free, recorded double/invalid frees) is back to its baseline; plus sequences through the public SharedString/Label/Key API; plus owned vectors of a zero-sized element type (capacity usize::MAX, the value reserved for Arc-backed values) x {drop, clone, into_owned}, each in its own process: rejected by a panic or handled correctly, never a dead process; distinct = distinct (allocations, frees, prune point) profiles; plus compile-time probes against the repository's cow.rs: 13 programs that keep a borrow for longer than the data (through from_borrowed, From<&T>, const_str, const_slice, std Cow, clone, deref, as_ref, lengthening the lifetime) must each be rejected by the compiler with a lifetime error, 10 controls of the same shape must compile",
         assumptions: &["cow.rs is self-contained, so compiling the same source file into the harness exercises the code the metrics crate compiles", "Send/Sync: only the two implications an owned slice needs (Cow<[E]>: Send => E: Send, Sync => E: Sync) are probed; full soundness of the bounds is a type-level claim outside this technique", "From<Cow<T>> for std::borrow::Cow<T> exists only for sized T and cannot be instantiated for str or slices"],
         parts,
         run,
